@@ -12,6 +12,7 @@ mod h_conv;
 mod h_html;
 mod h_list;
 mod h_parse;
+mod h_prog;
 mod session;
 mod sym;
 mod units;
@@ -38,6 +39,7 @@ const ENTRIES: &[(&str, Entry)] = &[
     ("h_c08_dtype_text", h_c08::h_c08_dtype_text),
     ("h_c04_convert", h_conv::h_c04_convert),
     ("h_c04_scaling", h_conv::h_c04_scaling),
+    ("h_c09_prog", h_prog::h_c09_prog),
     ("h_c10_parse", h_parse::h_c10_parse),
     ("h_c18_step", h_list::h_c18_step),
     ("h_c18_hist", h_list::h_c18_hist),
